@@ -1,5 +1,5 @@
 /* sched.c -- runtime for E2 (see sched.h).  Compiled WITHOUT -fsanitize=thread; linked with
- * -Wl,--wrap=malloc,--wrap=free,--wrap=abort,--wrap=sched_yield against library objects compiled WITH -fsanitize=thread. */
+ * -Wl,--wrap=malloc,--wrap=calloc,--wrap=realloc,--wrap=free,--wrap=abort,--wrap=sched_yield against library objects compiled WITH -fsanitize=thread. */
 #define _GNU_SOURCE
 #include "sched.h"
 #include <ucontext.h>
@@ -11,6 +11,8 @@
 
 void *__real_malloc(size_t);
 void  __real_free(void *);
+void *__real_calloc(size_t, size_t);
+void *__real_realloc(void *, size_t);
 void  __real_abort(void) __attribute__((noreturn));
 
 static void hb_fresh(uintptr_t a, size_t n);
@@ -98,6 +100,29 @@ void __wrap_free(void *p)
     if (sx_on_free) sx_on_free(b);
     b->freed = 1;
     memset(p, 0xDD, b->size);                        /* quarantined and poisoned for the rest of the execution */
+}
+/* calloc/realloc go through the same arena (one scheduling point each, like malloc): a library that obtains its bookkeeping block with
+ * calloc, or grows one with realloc, is still entirely inside tracked memory */
+void *__wrap_calloc(size_t n, size_t sz)
+{
+    void *p;
+    if (!active) return __real_calloc(n, sz);
+    if (sz && n > (size_t)-1 / sz) return NULL;
+    p = __wrap_malloc(n * sz);
+    if (p) memset(p, 0, n * sz);
+    return p;
+}
+void *__wrap_realloc(void *old, size_t sz)
+{
+    void *p; const sx_block *b;
+    if (!active) return __real_realloc(old, sz);
+    if (old == NULL) return __wrap_malloc(sz);
+    if (sz == 0) { __wrap_free(old); return NULL; }
+    b = sx_block_of(old);
+    if (b == NULL || b->addr != (uintptr_t)old || b->freed) { sx_fail("realloc() of a pointer that is not a live allocated block"); return NULL; }
+    p = __wrap_malloc(sz);
+    if (p) { memcpy(p, old, b->size < sz ? b->size : sz); __wrap_free(old); }
+    return p;
 }
 void __wrap_abort(void)
 {
